@@ -3,19 +3,36 @@
 // without wall-clock fields.  The check compares the transcripts of several PROCESSES started with
 // the same arguments (and of two runs inside one process: `repeat`).
 //
-//   c07_run <config> <seed> <generations> <individuals> <noise> [repeat]
+//   c07_run <config> <seed> <generations> <individuals> <noise> [repeat | stall-cb:<n>:<ms> | stall-eval:<n>:<ms>]
 //     config : mep-std | mep-alps | mep-dss | mep-holdout | ga-std | ga-alps | de
 //     noise  : seed of a heap-layout perturbation executed before anything is allocated by vita
 //              (0 = none): shakes out address-dependent behaviour
+//     stall-cb:<n>:<ms>   timing perturbation: the n-th after_generation callback (0-based, counted over
+//                         the whole process) sleeps <ms> milliseconds AFTER it has been recorded
+//     stall-eval:<n>:<ms> the n-th call of the fitness function sleeps <ms> ms (ga-* and de only: the
+//                         harness owns their fitness function) – a stall in the middle of a generation
+//     A stalled process must print exactly the transcript of an unstalled one: nothing observable may
+//     depend on the wall clock (evolution.tcc has a branch taken 2 s after the last progress message).
 #include "kernel/vita.h"
 #include "common/verif.h"
 
+#include <chrono>
 #include <sstream>
+#include <thread>
 
 using namespace vita;
 
 namespace
 {
+
+long stall_cb_at = -1, stall_eval_at = -1, callbacks = 0, evaluations = 0;
+unsigned stall_ms = 0;
+
+void maybe_stall(long &counter, long at)
+{
+  if (counter++ == at)
+    std::this_thread::sleep_for(std::chrono::milliseconds(stall_ms));
+}
 
 auto *keep = new std::vector<void *>;   // reachable through a global at exit (not a leak), never freed
 
@@ -59,6 +76,7 @@ void dump(std::ostream &o, const population<T> &pop, const summary<T> &s)
     o << ' ' << it->first->name() << ':' << it->first->opcode() << ':' << it->second.counter[0]
       << ':' << it->second.counter[1];
   o << '\n';
+  maybe_stall(callbacks, stall_cb_at);
 }
 
 template<class T> void final_dump(std::ostream &o, const summary<T> &s)
@@ -119,6 +137,7 @@ void run_ga(std::ostream &o, unsigned gens, unsigned inds)
 
   auto f = [](const i_ga &x) -> fitness_t
   {
+    maybe_stall(evaluations, stall_eval_at);
     double attacks(0);
     for (int q(0); q < N - 1; ++q)
       for (int i(q + 1); i < N; ++i)
@@ -140,6 +159,7 @@ void run_de(std::ostream &o, unsigned gens, unsigned inds)
 
   auto f = [](const std::vector<double> &x)
   {
+    maybe_stall(evaluations, stall_eval_at);
     double r(10.0 * x.size());
     for (auto xi : x) r += xi * xi - 10.0 * std::cos(2 * 3.141592653589793 * xi);
     return -r;
@@ -176,11 +196,22 @@ int main(int argc, char *argv[])
   const std::string cfg(argv[1]);
   const unsigned seed(std::stoul(argv[2])), gens(std::stoul(argv[3])), inds(std::stoul(argv[4]));
   heap_noise(std::stoull(argv[5]));
-  const bool repeat(argc > 6 && std::string(argv[6]) == "repeat");
+  const std::string mode(argc > 6 ? argv[6] : "");
+  const bool repeat(mode == "repeat");
+  if (mode.rfind("stall-", 0) == 0)
+  {
+    const auto p1(mode.find(':')), p2(mode.find(':', p1 + 1));
+    if (p1 == std::string::npos || p2 == std::string::npos) { std::cout << "usage\n"; return 2; }
+    const long n(std::stol(mode.substr(p1 + 1, p2 - p1 - 1)));
+    stall_ms = std::stoul(mode.substr(p2 + 1));
+    (mode.rfind("stall-cb", 0) == 0 ? stall_cb_at : stall_eval_at) = n;
+  }
 
   std::ostringstream a;
   one_run(a, cfg, seed, gens, inds);
   std::cout << a.str();
+  if (stall_cb_at >= callbacks || stall_eval_at >= evaluations)
+    std::cout << "STALL-NOT-REACHED\n";    // the perturbation did not happen: the check must know
   if (repeat)
   {
     std::ostringstream b;
